@@ -581,19 +581,10 @@ class CheckedCoverageInstrumentation(python3_10.CheckedCoverageInstrumentation):
 
         # We want to place the instrumentation instructions before the PRECALL and KW_NAMES
         # instructions, if they are present, otherwise it may cause issues.
-        precall_instr = node.try_get_instruction(instr_index - 1)
-        assert precall_instr is not None, (
-            f"A Instruction should exist at index {instr_index - 1} in {node.basic_block}"
-        )
-        if precall_instr.name == "PRECALL":
-            instr_index -= 1
-
-        kw_names_instr = node.try_get_instruction(instr_index - 1)
-        assert kw_names_instr is not None, (
-            f"Instruction should exist at index {instr_index - 1} in {node.basic_block}"
-        )
-        if kw_names_instr.name == "KW_NAMES":
-            instr_index -= 1
+        for name in ("PRECALL", "KW_NAMES"):
+            previous_instr = node.basic_block[instr_index - 1] if instr_index > 0 else None
+            if isinstance(previous_instr, Instr) and previous_instr.name == name:
+                instr_index -= 1
 
         # Instrumentation before the original instruction
         node.basic_block[before(instr_index)] = self.instructions_generator.generate_instructions(
